@@ -124,3 +124,48 @@ def _d10(prop, sig, line, detail, profile):
     if pred == "P":
         return obs[0] == "P"
     return obs == pred
+
+
+# --------------------------------------------------------------------------
+# D16: pow(x, y) = exp(y * ln x).  ln carries an absolute error of up to 8 ulp
+# (+2^-23 relative), which the exponentiation turns into a factor e^(+-eps) with
+# eps = |y ln x| 2^-22 + 16 |y| 2^-F.  C15 states the linearised bound
+# (relative error <= eps), which is a faithful propagation only while eps is
+# small.  For eps >= 1 (|y| >= 2^F/16, i.e. astronomically large exponents) the
+# pinned algorithm exceeds the linearised bound, e.g. pow(1 - ulp, 2^60) = 1.0
+# (ln rounds to 0) where the true power is ~0.  The predicate accepts exactly
+# the results that stay inside the NON-linearised band of the same error model.
+
+@predicate("pow_exponent_error_not_small")
+def _d16(prop, sig, line, detail, profile):
+    if prop != "C15" or ":pow:inaccurate:" not in (":" + sig):
+        return False
+    import mpmath
+    from mpmath import mpf
+    mpmath.mp.prec = 500
+    toks = line.split()
+    if toks[0] != "pow":
+        return False
+    S = lay(toks[1])
+    D = lay(toks[2])
+    X = S.val(int(toks[3], 16))
+    Y = S.val(int(toks[4], 16))
+    out = toks[6]
+    if out[0] != "K" or X <= 0:
+        return False
+    R = D.val(int(out[2:], 16))
+    two = mpf(2)
+    xv = mpf(X) / (1 << S.f)
+    yv = mpf(Y) / (1 << S.f)
+    rv = mpf(R) / (1 << D.f)
+    eps = abs(yv * mpmath.log(xv)) * two ** -22 + 16 * abs(yv) * two ** -D.f
+    if eps < 1:
+        return False
+    true = mpmath.power(xv, yv)
+    slack = 64 * two ** -D.f
+    if eps > 100000:
+        lo, hi = mpf(0), mpf("inf")
+    else:
+        lo = true * mpmath.exp(-eps) * (1 - two ** -18) - slack
+        hi = true * mpmath.exp(eps) * (1 + two ** -18) + slack
+    return lo <= rv <= hi
